@@ -313,6 +313,9 @@ def main():
             for otag, opts in (("ndl", {"no_data_loss": True}), ("ne", {"no_explicit_cast": True})):
                 for x in (POOL if thorough else rng.sample(POOL, 12) + ["123", "12", b"123", 12.0]):
                     add(T, x, tag + "@" + otag, opts)
+    # the late acceptor of a xor can also change the value instead of failing the second parse: fixed witness of that symptom
+    lvw = leaves()
+    add(gen.logic("xor", lvw["bool"], lvw["short"]), [1], "bool^short@ndl", {"no_data_loss": True})
     nu = len(records)
     for T, vals in universe(ck):
         for x in vals:
